@@ -17,7 +17,7 @@ import (
 	"github.com/go-task/task/v3/verifh/p16"
 )
 
-const rule = "tables: seeded random name tables of 3-8 tasks over the alphabet {a b : . * - ( ) [ + ? ^ $ | \\ { space} (names YAML double-quoted, 0-3 '*' per name, half of the names derived from an existing one so that patterns overlap; 0-2 aliases per task colliding with names / pattern instances / each other; 40% of the tables with one included file under a namespace). requests: every merged name, every alias, 2 instantiations per pattern, what a regexp reading of a name would accept, near misses at edit distance 1 and 3, random strings. One CLI run per (table, request); the task's only command prints its origin marker and base64 of each .MATCH item. oracle: literal model exact > first literally matching wildcard in Taskfile order (root file first) > unique alias > 203 (several tasks carry the alias) > 200 (nothing may run; a suggestion is demanded only if exactly one name/alias is at Levenshtein distance 1 and all others at OSA distance > 2 and it is not a pattern); on a wildcard match the MATCH items must be as many as the '*'s and rebuild the request when substituted; Go panic / signal = violation. A case is one (table, request); non-trivial = the model had >= 2 candidates (exact, literally matching patterns, alias holders) or the request or the chosen name contains a regex metacharacter or an error code is expected; distinct by hash(project files, request). Exit codes 100-110 (setup rejected the table) are counted and not judged."
+const rule = "tables: seeded random name tables of 3-8 tasks over the alphabet {a b : . * - ( ) [ + ? ^ $ | \\ { space} (names YAML double-quoted, 0-3 '*' per name, half of the names derived from an existing one so that patterns overlap; 0-2 aliases per task colliding with names / pattern instances / each other; 40% of the tables with one included file under a namespace). requests: every merged name, every alias, 2 instantiations per pattern (1 in 4 patterns also with a '{{' filling), what a regexp reading of a name would accept, near misses at edit distance 1 and 3, random strings. One CLI run per (table, request); the task's only command prints its origin marker and base64 of each .MATCH item. oracle: literal model exact > first literally matching wildcard in Taskfile order (root file first) > unique alias > 203 (several tasks carry the alias) > 200 (nothing may run; a suggestion is demanded only if exactly one name/alias is at Levenshtein distance 1 and all others at OSA distance > 2 and it is not a pattern); on a wildcard match the MATCH items must be as many as the '*'s and rebuild the request when substituted; Go panic / signal = violation. A case is one (table, request); non-trivial = the model had >= 2 candidates (exact, literally matching patterns, alias holders) or the request or the chosen name contains a regex metacharacter or an error code is expected; distinct by hash(project files, request). Exit codes 100-110 (setup rejected the table) are counted and not judged."
 
 type obs struct {
 	Exit   int      `json:"exit"`
